@@ -8,7 +8,7 @@
    map-iteration oracle and clock value) of the model of the REPAIRED code
    (fixes 7baf630 c9f204c d6f86b5 in /repo; see FIXLOG.md). *)
 From PV Require Import Base.Prelude Base.Text Model.DHCP Model.DHCPShow Spec.DHCP Spec.DHCPCheck
-  Proofs.DHCP Proofs.DHCPInv Proofs.DHCPReply Proofs.DHCPTie Proofs.DHCPRestart Proofs.DHCPGrant Proofs.DHCPClauses Proofs.DHCPRefuted.
+  Proofs.DHCP Proofs.DHCPInv Proofs.DHCPReply Proofs.DHCPTie Proofs.DHCPRestart Proofs.DHCPGrant Proofs.DHCPClauses Proofs.DHCPRestored Proofs.DHCPRefuted.
 Open Scope list_scope.
 Open Scope N_scope.
 
@@ -93,20 +93,20 @@ Print Assumptions C11_lease_file_invariant.
    acknowledged in the initial state of run 2 for the same address with the same expiry — a lease
    unexpired when run 1 ended is unexpired when run 2 starts, so MinuteTicker cannot free it, and
    C11's clauses keep its address away from other clients, before that expiry. *)
-Theorem C11_restart_expiry : forall cA cB h sA saved l x,
+Theorem C11_restart_expiry : forall cA cB pre h sA saved l x,
   forallb (fun p => negb (is_hook (snd p))) h = true ->
   run_saving cA (init cA) [] h = (sA, saved) ->
   sub_changed (wanted cB) (c_sub cA) = false ->
   In l (tbl sA) -> l_state l = SAllocated -> l_ip l = Some x ->
   n_contains (loaded_cfg (c_sub cA) cB) false x = true -> l_cid l <> 1 ->
-  exists l', In l' (tbl (restart_state (c_sub cA) cB saved)) /\ l_cid l' = l_cid l /\
+  exists l', In l' (tbl (restart_state (c_sub cA) cB pre saved)) /\ l_cid l' = l_cid l /\
              l_state l' = SAllocated /\ l_ip l' = Some x /\ l_mac l' = l_mac l /\ l_exp l' = l_exp l.
 Proof. exact restart_expiry. Qed.
 Print Assumptions C11_restart_expiry.
 
 Example C11_restart_expiry_example :
   let '(sA, saved) := run_saving wcfgR (init wcfgR) [] (with_ch0 wren) in
-  map (fun l => (l_state l, l_ip l, l_exp l)) (tbl (restart_state (c_sub wcfgR) wcfgR saved))
+  map (fun l => (l_state l, l_ip l, l_exp l)) (tbl (restart_state (c_sub wcfgR) wcfgR [] saved))
   = [(SAllocated, Some 3232235522, 15400%Z)].
 Proof. exact restart_expiry_example. Qed.
 Print Assumptions C11_restart_expiry_example.
@@ -193,3 +193,23 @@ Theorem C11_exhausted_discover_silent : forall c ch now s0 m s',
   handleDiscover c ch now s0 m = (s', None) -> tget (getcid m) (tbl s') = None.
 Proof. exact discover_exhausted_silent. Qed.
 Print Assumptions C11_exhausted_discover_silent.
+
+(* ---------------------------------------------------------------- *)
+(* The central clause from a RESTORED table.  What loadByteArray guarantees (restore): one entry per client
+   id, acknowledged addresses unique — whatever the capture state of the session at load time (which only
+   decides the subnet a restored lease points at).  Uniqueness of acknowledged addresses needs no fact
+   about the session (whose hosts are forgotten by a restart), only the table half of taken(). *)
+Theorem C11_loader_guarantee : forall cL se saved, UWl saved -> UWl (restore cL se saved).
+Proof. exact restore_uw. Qed.
+Print Assumptions C11_loader_guarantee.
+
+Theorem C11_uniq_after_restart : forall cA cB pre hA sA saved h,
+  run_saving cA (init cA) [] hA = (sA, saved) ->
+  Uniq (tbl (fst (run (loaded_cfg (c_sub cA) cB) (restart_state (c_sub cA) cB pre saved) h))).
+Proof. exact uniq_after_restart. Qed.
+Print Assumptions C11_uniq_after_restart.
+
+Theorem C11_uniq_from_any_state : forall c s h,
+  NoDup (map l_cid (tbl s)) -> Uniq (tbl s) -> Uniq (tbl (fst (run c s h))).
+Proof. exact uniq_from_any_state. Qed.
+Print Assumptions C11_uniq_from_any_state.
